@@ -144,9 +144,15 @@ func allowIP(ipFilter *ipfilter.IPFilter, ip string) bool {
 	return ipFilter.Allow(ip)
 }
 
+// routeCacheKey is the key of the route cache, the fields are kept separate
+// so that two different requests can never share a key.
+type routeCacheKey struct {
+	host, method, path string
+}
+
 func (mi *muxInstance) getRouteFromCache(req *httpprot.Request) *route {
 	if mi.cache != nil {
-		key := stringtool.Cat(req.Host(), req.Method(), req.Path())
+		key := routeCacheKey{req.Host(), req.Method(), req.Path()}
 		if value, ok := mi.cache.Get(key); ok {
 			return value.(*route)
 		}
@@ -156,7 +162,7 @@ func (mi *muxInstance) getRouteFromCache(req *httpprot.Request) *route {
 
 func (mi *muxInstance) putRouteToCache(req *httpprot.Request, r *route) {
 	if mi.cache != nil {
-		key := stringtool.Cat(req.Host(), req.Method(), req.Path())
+		key := routeCacheKey{req.Host(), req.Method(), req.Path()}
 		mi.cache.Add(key, r)
 	}
 }
@@ -534,7 +540,7 @@ func (mi *muxInstance) search(req *httpprot.Request) *route {
 
 	ip := req.RealIP()
 
-	// The key of the cache is req.Host + req.Method + req.URL.Path,
+	// The key of the cache is req.Host, req.Method and req.URL.Path,
 	// and if a path is cached, we are sure it does not contain any
 	// headers.
 	r := mi.getRouteFromCache(req)
